@@ -1,5 +1,5 @@
 (* dispatcher of the correspondence checks *)
-From Smtp Require Import Bytes Sx CheckBase CheckDr CheckConv CheckReply CheckLmtpConv CheckLife CheckTrip CheckCli CheckC11 CheckTmo.
+From Smtp Require Import Bytes Sx CheckBase CheckDr CheckConv CheckReply CheckLmtpConv CheckLife CheckTrip CheckCli CheckC11 CheckTmo CheckWtmo.
 
 (* ---- dispatcher ---- *)
 
@@ -13,6 +13,7 @@ Definition check_sx (x : sx) : verdict :=
       else if sx_is "trip" k then check_trip args
       else if sx_is "sm" k then check_sm args
       else if sx_is "tmo" k then check_tmo args
+      else if sx_is "wtmo" k then check_wtmo args
       else if sx_is "cli" k then check_cli args
       else if sx_is "c11" k then check_c11 args
       else bad_case
